@@ -20,14 +20,14 @@ ASSUMPTIONS = [
     "closed form written from the paper with scipy.special.gamma / gammaincc",
     "mass residual thresholds 0.4 / 3e-2 / 1.5e-3 / 3e-5 at res = ell/1,2,4,8 (ell = footprint scale) are calibrated constants with a 3x margin (DESIGN C19)",
 ]
-MIN_NONTRIVIAL = {"quick": 100, "thorough": 1500}
-TIMEOUT = {"quick": 600, "thorough": 1800}
+MIN_NONTRIVIAL = {"quick": 100, "thorough": 3600}
+TIMEOUT = {"quick": 600, "thorough": 7000}
 K = 0.4
 MASS_T = {1: 0.4, 2: 3e-2, 4: 1.5e-3, 8: 3e-5}
 
 
 def cases(tier, seed):
-    n = 200 if tier == "quick" else 2400
+    n = 200 if tier == "quick" else 7200
     return [{"seed": seed, "idx": i} for i in range(n)]
 
 
